@@ -32,6 +32,7 @@ class StepBudgetExceeded(Exception):
     pass
 
 
+MAX_NODES_CORRUPTED = 32
 LINES_PER_ITERATION = 100      # generous: one loop iteration of Checker._match executes < 45 lines
 
 
@@ -484,8 +485,8 @@ def stage_c(ctx, procs):
         if bad:
             ctx.violation('C13/Checker.match/compiled-model/step-budget-exceeded', 'compiled model of\n%s\n%s' % (text, bad),
                           {'kind': 'text', 'text': text})
-        if k >= ncorrupt:
-            continue
+        if k >= ncorrupt or len(ck.model.nodes) > MAX_NODES_CORRUPTED:
+            continue                       # big models (DNF blow-up) cost seconds per corruption and add no new kind
         from ndn.app_support.light_versec import binary as bny
         for kind, pos, (cw, seen_model) in corruptions(wire):
             sid += 1
@@ -504,7 +505,7 @@ def stage_c(ctx, procs):
                                   'model of\n%saccepted after corruption %s at %s: %s' % (text, kind, pos, bad),
                                   {'kind': 'wire', 'wire': cw.hex(), 'corruption': kind, 'pos': list(pos), 'text': text})
     ctx.note('C: %d generated schemas, %d injected static errors, %d single-field corruptions of %d compiled models, '
-             '%d step-bounded queries on accepted models' % (nschema, ninj, ncor, min(ncorrupt, len(originals)), nterm))
+             '%d step-bounded queries on accepted models' % (nschema, ninj, ncor, sum(1 for k, o in enumerate(originals) if k < ncorrupt and len(o[2].model.nodes) <= MAX_NODES_CORRUPTED), nterm))
     ctx.note('C: kinds exercised: %s' % json.dumps(kinds_seen, sort_keys=True))
     ctx.extra['kinds_exercised'] = kinds_seen
     ver = K.judge(ctx, wrecs + srecs, 'c13c', procs)
